@@ -34,6 +34,8 @@ ASYMS = {
     # sites given many cells away from the origin (coordinates between 5 and 15 in magnitude, where SHELX's own "10 + value = fixed
     # parameter" convention lives - the library writes plain coordinates and must read them back as such)
     "far": (["C", "O", "N"], ["C1", "O1", "N1"], [[6.1651, -7.2513, 0.3127], [12.5533, 0.0791, -9.3873], [-5.6419, 9.7277, 14.0911]], None),
+    # labels whose leading letters spell ANOTHER element than the site holds (PDB-style CA / CD1, hydroxyl HO1, NE1)
+    "misleading_labels": (["C", "H", "N", "C"], ["CA1", "HO1", "NE1", "CD1"], [[0.1231, 0.3117, 0.2713], [0.5533, 0.0791, 0.6127], [0.8419, 0.7277, 0.0911], [0.3301, 0.9013, 0.4409]], None),
     "precise": (["C", "N"], ["C1", "N1"], [[0.123456789012, 0.987654321098, 0.555555555555], [1 / 3, 2 / 7, 0.1 + 1e-12]], None),
 }
 
@@ -59,7 +61,7 @@ def variants(row, tier):
     out = [d]
     axes = [
         [("oblique",), ("nonterm",), ("eq_ab",), ("eq_bc",), ("eq_ac",)],
-        [("two_letter",), ("twelve",), ("half_occ",), ("precise",), ("far",)],
+        [("two_letter",), ("twelve",), ("half_occ",), ("precise",), ("far",), ("misleading_labels",)],
         [("from_cif",), ("from_res",), ("from_rich_cif",)],
         [("file",)],
         [(2,)],
@@ -461,7 +463,146 @@ def integer_columns(part, which):
     part.nstates(1)
 
 
+def shelx_spelling(op):
+    """an operation the way SHELX files spell it: upper case, no leading plus sign, ', ' between the components"""
+    R, t = op
+    comps = []
+    for i in range(3):
+        parts = []
+        if t[i] % 12:
+            from fractions import Fraction
+
+            fr = Fraction(t[i] % 12, 12)
+            parts.append("%d/%d" % (fr.numerator, fr.denominator))
+        for j, sym in enumerate("XYZ"):
+            cf = R[3 * i + j]
+            if cf:
+                parts.append(("-" if cf < 0 else "+") + sym)
+        txt = "".join(parts)
+        comps.append(txt[1:] if txt.startswith("+") else txt)
+    return ", ".join(comps)
+
+
+def foreign_files(part, rows):
+    """
+    files NOT written by the library but by the formats' own conventions (a SHELX .res with upper-case SYMM cards, ZERR / UNIT / HKLF
+    cards and the true LATT; a POSCAR with a scale factor other than 1): the crystal read from them is the crystal described, its
+    cell object is self-consistent, and it then round-trips through the library's own writers
+    """
+    from chmpy.crystal import Crystal
+
+    for row in rows:
+        ops = [symm.decode(c) for c in row["symops"]]
+        sk = "%d:%s" % (row["number"], row["choice"])
+        cell = cell_for(row, "default")
+        syms, labels, frac, occ = ASYMS["default"]
+        frac = np.array(safe_positions(ops, frac), dtype=float)
+        case = {"kind": "foreign", "number": row["number"], "choice": row["choice"]}
+        # ---- SHELX
+        cent = restext.CENTRING
+        pure_t = {o[1] for o in ops if o[0] == symm.IDENTITY_R and o[1] != (0, 0, 0)}
+        n_latt = [k for k, v in cent.items() if set(v) == pure_t]
+        if n_latt:
+            latt = n_latt[0] * (1 if (symm.MINUS_I, (0, 0, 0)) in set(ops) else -1)
+            reps, covered = [], set(restext.expand_latt([], latt))
+            for o in ops:
+                if o not in covered:
+                    reps.append(o)
+                    covered |= restext.expand_latt([o], latt)
+            lines = ["TITL foreign %s" % sk.replace(":", "_"), "CELL 0.71073 %.4f %.4f %.4f %.3f %.3f %.3f" % tuple(cell), "ZERR %d 0.001 0.001 0.001 0 0 0" % len(ops), "LATT %d" % latt]
+            lines += ["SYMM " + shelx_spelling(o) for o in reps]
+            lines += ["SFAC " + " ".join(syms), "UNIT " + " ".join(str(len(ops)) for _ in syms), "FVAR 1.0"]   # (only cards the library's reader documents: no L.S. / BOND / ...)
+            lines += ["%s %d %.6f %.6f %.6f 11.00000 0.05" % (lab, i + 1, f[0], f[1], f[2]) for i, (lab, f) in enumerate(zip(labels, frac))]
+            lines += ["HKLF 4", "END", ""]
+            text = "\n".join(lines)
+            part.ev()
+            part.tr()
+            try:
+                c = Crystal.from_shelx_string(text)
+                ps = xtal.public_state(c)
+                wantcell = [float("%.4f" % x) for x in cell[:3]] + [float("%.3f" % x) for x in cell[3:]]
+                if ps["number"] != row["number"] or ps["codes"] != sorted(row["symops"]):
+                    part.fail("foreign-res:group:%s" % sk, "a standard SHELX file of %s (LATT %d, %d upper-case SYMM cards) is read as %d with %d operations" % (sk, latt, len(reps), ps["number"], len(ps["codes"])), case)
+                elif not (np.abs(np.array(ps["lengths"] + list(np.degrees(ps["angles"]))) - np.array(wantcell)).max() <= 1e-6) or [Element_sym(z) for z in ps["Z"]] != list(syms) \
+                        or not (np.abs(ps["pos"] - np.round(frac, 6)).max() <= 5e-7):
+                    part.fail("foreign-res:content:%s" % sk, "a standard SHELX file of %s is read with another cell / elements / coordinates" % sk, case)
+                else:
+                    new = Crystal.from_shelx_string(c.to_shelx_string())
+                    if xtal.public_state(new)["codes"] != ps["codes"]:
+                        part.fail("foreign-res:second-generation:%s" % sk, "re-writing a crystal read from a standard SHELX file changes its operations", case)
+            except Exception as e:
+                part.fail("foreign-res:raise:%s" % sk, "a standard SHELX file of %s (LATT %d) raised %s: %s" % (sk, latt, type(e).__name__, str(e)[:80]), case)
+        # ---- POSCAR with a scale factor (P1 content: the images of the sites)
+        M = lattice.cell_matrix(*cell)
+        E, Zs = expected_uc(ops, frac, [{"C": 6, "O": 8, "H": 1}[x] for x in syms])
+        order = np.argsort(Zs, kind="stable")
+        for scale in (1.02, 0.5, 3.905):
+            part.ev()
+            part.tr()
+            lat = M / scale
+            counts = [(z, int((Zs == z).sum())) for z in sorted(set(Zs.tolist()))]
+            lines = ["foreign poscar", "%.10f" % scale] + ["%.12f %.12f %.12f" % tuple(r) for r in lat]
+            lines += [" ".join(Element_sym(z) for z, _ in counts), " ".join(str(n) for _, n in counts), "Direct"]
+            lines += ["%.12f %.12f %.12f" % tuple(np.mod(p, 1.0)) for p in E[order]] + [""]
+            try:
+                c = Crystal.from_vasp_string("\n".join(lines))
+                uc = c.unit_cell
+                D, I = np.asarray(uc.direct, dtype=float), np.asarray(uc.inverse, dtype=float)
+                vol = abs(np.linalg.det(M))
+                bad = []
+                if not (np.abs(D - M).max() <= 1e-8 * np.abs(M).max()):
+                    bad.append("lattice vectors are not scale x the written ones")
+                if not (np.abs(D @ I - np.eye(3)).max() <= 1e-9):
+                    bad.append("direct @ inverse != identity")
+                if not (abs(uc.volume() - vol) <= 1e-8 * vol):
+                    bad.append("volume() %.6f != determinant %.6f" % (uc.volume(), vol))
+                if not (np.abs(np.asarray(uc.lengths) - np.linalg.norm(M, axis=1)).max() <= 1e-8 * np.abs(M).max()):
+                    bad.append("lengths are not those of the scaled vectors")
+                if len(c.asymmetric_unit) != len(E):
+                    bad.append("%d atoms read, %d written" % (len(c.asymmetric_unit), len(E)))
+                if bad:
+                    part.fail("foreign-poscar:%s" % sk, "POSCAR with scale factor %g: %s" % (scale, "; ".join(bad)), case)
+            except Exception as e:
+                part.fail("foreign-poscar:raise:%s" % sk, "POSCAR with scale factor %g raised %s: %s" % (scale, type(e).__name__, str(e)[:80]), case)
+        part.outcome(("foreign", len(ops) > 4))
+    part.nstates(len(rows))
+
+
+def Element_sym(z):
+    from mc.ref.elements import ELEMENTS
+
+    return ELEMENTS[int(z) - 1][0]
+
+
+def all_elements(part, zs):
+    """every element Z = 1..103 (given by atomic number) through the three formats: the element written is the element read"""
+    from chmpy.crystal import Crystal
+
+    for z in zs:
+        for fmt in ("cif", "res", "poscar"):
+            part.ev()
+            part.tr()
+            case = {"kind": "elements", "z": int(z)}
+            try:
+                c = xtal.make_crystal(2, "", (6.1, 7.3, 8.9, 83.0, 99.0, 107.0), [int(z), 8, int(z)], np.array([[0.11, 0.23, 0.31], [0.43, 0.57, 0.71], [0.79, 0.13, 0.47]]))
+                new = Crystal.from_cif_string(c.to_cif_string()) if fmt == "cif" else Crystal.from_shelx_string(c.to_shelx_string()) if fmt == "res" else Crystal.from_vasp_string(c.to_poscar_string())
+                got = sorted(int(v) for v in new.asymmetric_unit.atomic_numbers)
+                want = sorted([int(z), 8, int(z)] * (2 if fmt == "poscar" else 1))
+                if got != want:
+                    part.fail("element-changed:%s" % fmt, "%s round trip of a crystal holding Z=%d: atomic numbers %s read back as %s" % (fmt, z, want, got), case)
+            except Exception as e:
+                part.fail("element-raise:%s" % fmt, "%s round trip of a crystal holding Z=%d raised %s: %s" % (fmt, z, type(e).__name__, str(e)[:80]), case)
+        part.outcome(("elements", int(z) % 7))
+    part.nstates(len(zs))
+
+
 def worker(part, rows, tier):
+    if rows and rows[0] == "elements":
+        all_elements(part, rows[1])
+        return
+    if rows and rows[0] == "foreign":
+        foreign_files(part, rows[1])
+        return
     if rows and isinstance(rows[0], str) and rows[0].startswith("intcol:"):
         integer_columns(part, rows[0].split(":", 1)[1])
         return
@@ -499,11 +640,19 @@ def run(ctx):
                        "space group compared by International Tables number and operation set (not by choice label)"]
     order = sorted(table, key=lambda r: -len(r["symops"]))
     ctx.bounds["near_special_structures"] = "P-1 / P2/m / R3 with a partially occupied site inside the merge distance of its own images x {POSCAR first, after a query, after molecules} x {string, file}"
-    ctx.pmap(worker, list(chunked(order, 4)) + [["P-1"], ["P2/m"], ["R3"]] + [["intcol:" + w] for w in ("P1", "P-1", "Cmce", "P21/c")], tier=ctx.tier)
+    ctx.pmap(worker, list(chunked(order, 4)) + [["P-1"], ["P2/m"], ["R3"]] + [["intcol:" + w] for w in ("P1", "P-1", "Cmce", "P21/c")]
+             + [["elements", list(c)] for c in chunked(range(1, 104), 13)]
+             + [["foreign", c] for c in chunked([r for r in table if r["index_in_number"] == 0 or ctx.thorough], 24)], tier=ctx.tier)
 
 
 def replay(ctx, case):
     table = symm.load_table()
+    if case.get("kind") == "elements":
+        all_elements(ctx, [case["z"]])
+        return
+    if case.get("kind") == "foreign":
+        foreign_files(ctx, [r for r in table if r["number"] == case["number"] and r["choice"] == case["choice"]])
+        return
     if case.get("kind") == "intcol":
         integer_columns(ctx, case["which"])
         return
